@@ -35,11 +35,11 @@ REGISTRY = {
                 quick=['x64'], thorough=['x64', 'a64', 'x86']),
     'C20': dict(module='c20', level='proof', technique='abstract interpretation of monomorphic MIR (intervals x known-bits, constant propagation with unrolling) discharging every panic edge',
                 quick=['x64'], thorough=['x64', 'x64-soft', 'x64-alt1', 'x64-alt2', 'a64', 'x86', 'x86-alt1-all']),
-    'C11': dict(module='c11', level='proof', technique='abstract interpretation of every constructor for every key length 0..=300 and [301, usize::MAX]',
+    'C11': dict(module='c11', level='proof', technique='abstract interpretation of every constructor for every key length 0..=300 and [301, usize::MAX]; global value numbering for padding equivalence',
                 quick=['x64'], thorough=['x64', 'x64-soft', 'x64-alt1', 'x64-alt2', 'a64', 'x86']),
     'C19': dict(module='c19', level='proof', technique='use analysis of `self` + string constant propagation over formatting MIR (static analysis)',
                 quick=['x64', 'x64-soft-all'], thorough=['x64', 'x64-all', 'x64-soft-all', 'x64-alt1-all', 'x64-alt2-all', 'a64', 'a64-soft-all', 'x86-all', 'x86-alt1-all']),
-    'C12': dict(module='c12', level='other', technique='dominator / provenance dataflow and call-set agreement over MIR (static analysis)',
+    'C12': dict(module='c12', level='other', technique='dominator / provenance dataflow over MIR; global value numbering of converted vs. freshly constructed instances',
                 quick=B_QUICK, thorough=B_THOROUGH),
     'C15': dict(module='c15', level='proof', technique='effect / ownership analysis over the whole-program call graph (static analysis)',
                 quick=A_QUICK, thorough=A_THOROUGH),
